@@ -24,6 +24,9 @@ type Finding struct {
 	Impl   any             `json:"impl,omitempty"`
 	Model  any             `json:"model,omitempty"`
 	Shrunk bool            `json:"shrunk"`
+	// Affects lists the properties a disagreement touches (nil = all of the layer).
+	Affects   []string `json:"affects,omitempty"`
+	Signature string   `json:"signature,omitempty"`
 }
 
 // Report is what a layer run writes for the orchestrator.
